@@ -10,7 +10,7 @@ RULE = ('histories over the blog shape (3 versioned classes + 1 non-versioned), 
         '1-4 flushes per transaction, with and without TransactionChangesPlugin; at every commit the transaction_changes '
         'rows are compared with the classes that have a version row stamped with each transaction id (none missing, none '
         'extra, one entry per class), and at the end Transaction.changed_entities of every record is compared with the '
-        'version rows carrying its id. Non-trivial: a transaction with >= 2 flushes touching >= 2 classes.')
+        'version rows carrying its id - through the record object the application read between two flushes and still holds, where it did. Non-trivial: a transaction with >= 2 flushes touching >= 2 classes.')
 ASSUMPTIONS = B.COMMON_ASSUMPTIONS + ['flat classes only (polymorphic queries would return subclass rows under the parent class too)']
 
 
@@ -25,7 +25,24 @@ def gen_cases(rng, n, tier):
     # flat shapes: Transaction.changed_entities is read for every record at the end of the run (a polymorphic query
     # of a hierarchy returns subclass versions under the parent class too: not compared there)
     cfgs = [dict(c, read_changed_entities=(c['shape'] != 'inh')) for c in cfgs]
-    return B.gen_cases_default(rng, n, tier, cfgs=cfgs)
+    cases = B.gen_cases_default(rng, n, tier, cfgs=cfgs)
+    for c in cases:
+        # the application looks at the record of the running transaction between flushes (and keeps the object):
+        # what it reads after the commit through that object has to be complete
+        prog = []
+        for op in c['prog']:
+            prog.append(op)
+            if op[0] == 'flush' and rng.random() < 0.35:
+                prog.append(['readnames'])
+        c['prog'] = prog
+    return cases
+
+
+def corpus():
+    cfg = dict(shape='blog', strategy='validity', changes=True, tracker=False, null_delete=False, autoflush=False,
+               read_changed_entities=True)
+    return [dict(cfg=cfg, prog=[['add', 0, 1, {'a': 1}], ['commit'], ['set', 0, 1, {'a': 2}], ['flush'], ['readnames'],
+                                ['add', 1, 1, {'a': 0}], ['flush'], ['add', 2, 1, {'a': 0}], ['commit']])]
 
 
 def nontrivial(case, obs):
